@@ -31,6 +31,7 @@ fn streams(t: Tier) -> Vec<StreamDef> {
         st("hide_limit", t.n(4_000, 200_000, 20, 1_000), false),
         st("colossal_value", t.n(4, 8, 0, 0), true),
         st("msg_many", t.n(2 * MANY.len() as u64, 4 * MANY.len() as u64, 0, MANY.len() as u64), true),
+        st("few_large", t.n(FEW_N * 12, FEW_N * 12, 6, FEW_N * 12), true),
     ]
 }
 
@@ -158,8 +159,40 @@ const MANY: [usize; 22] = [
     (1 << 20) + 3,
 ];
 
+/// number of AVP counts tried by `few_large` (2..=90)
+const FEW_N: u64 = 89;
+
 fn run(ctx: &mut Ctx) {
     match ctx.stream {
+        "few_large" => {
+            // n AVPs of (nearly) equal size whose total sits just below, at and just above the
+            // 65 535-octet limit, for every n from 2 to 90: oversize through a *few large* AVPs
+            // (65 maximal AVPs are the fewest that can overflow), complementing `msg_many`
+            let n = 2 + (ctx.idx % FEW_N) as usize;
+            let target: usize = [65_535usize, 65_536, 65_537, 65_535 - 7, 66_000, usize::MAX][(ctx.idx / FEW_N) as usize % 6];
+            // every other pass: no Message Type in front (the encoder does not ask for one), so that
+            // all n AVPs can be maximal - 65 of them are the fewest that overflow
+            let with_mt = (ctx.idx / (FEW_N * 6)) % 2 == 0;
+            let head = if with_mt { 8 } else { 0 };
+            let k = if with_mt { n - 1 } else { n };
+            let target = if target == usize::MAX { 12 + head + k * 1023 } else { target };
+            let rest = target.saturating_sub(12 + head);
+            if rest < 7 * k || rest > 1023 * k {
+                return;
+            }
+            let mut avps = if with_mt { vec![SAvp { attr: 0, hidden: false, body: SBody::U16(2) }] } else { Vec::new() };
+            let (q, rem) = (rest / k, rest % k);
+            for i in 0..k {
+                let sz = q + if i < rem { 1 } else { 0 };
+                let attr = [11u16, 7, 26, 33][i % 4];
+                avps.push(SAvp { attr, hidden: false, body: SBody::Bytes(ctx.rng.bytes(sz - 6)) });
+            }
+            let total = 12 + avps.iter().map(|a| 6 + crate::spec::encode::payload(a).len()).sum::<usize>();
+            let c = SControl { length: total as u16, tunnel: 1, session: 2, ns: 3, nr: 4, avps };
+            ctx.rep.case(format!("few:{}:{}", n, total).as_bytes(), true);
+            ctx.rep.bucket("few_large.cases");
+            check_msg(ctx, &c, total);
+        }
         "msg_many" => {
             let n = MANY[(ctx.idx as usize) % MANY.len()];
             if n > 300_000 && ctx.build != "rel" {
